@@ -1,0 +1,12 @@
+//go:build verif
+
+package disassemble
+
+import (
+	"mltwist/internal/consoleui"
+	"mltwist/internal/consoleui/internal/lines"
+)
+
+// VerifView exposes the listing view (lines and cursor) of a disassembler
+// mode created by New to the verification hooks (build tag verif).
+func VerifView(m consoleui.Mode) *lines.View { return m.(*mode).view }
